@@ -61,3 +61,28 @@ pub fn r_path(c: Compiler<B, CompilerReady>, p: PathBuf) -> Compiler<B, Compiler
 pub fn r_paths(c: Compiler<B, CompilerReady>, p: Vec<PathBuf>) -> Compiler<B, CompilerReady> {
     c.add_asn_sources_by_path(p.into_iter())
 }
+
+// ---- the same builder prefix for the TypeScript backend, and the backend swap ------------------------------------------
+type T = TypescriptBackend;
+
+pub fn tb_new() -> Compiler<T, CompilerMissingParams> {
+    Compiler::<T, _>::new()
+}
+pub fn tm_literal(c: Compiler<T, CompilerMissingParams>, s: String) -> Compiler<T, CompilerSourcesSet> {
+    c.add_asn_literal(s)
+}
+pub fn tm_mode(c: Compiler<T, CompilerMissingParams>, m: OutputMode) -> Compiler<T, CompilerOutputSet> {
+    c.set_output_mode(m)
+}
+pub fn to_literal(c: Compiler<T, CompilerOutputSet>, s: String) -> Compiler<T, CompilerReady> {
+    c.add_asn_literal(s)
+}
+pub fn ts_mode(c: Compiler<T, CompilerSourcesSet>, m: OutputMode) -> Compiler<T, CompilerReady> {
+    c.set_output_mode(m)
+}
+pub fn x_to_ts(c: Compiler<B, CompilerReady>, b: T) -> Compiler<T, CompilerReady> {
+    c.with_backend(b)
+}
+pub fn x_to_rasn(c: Compiler<T, CompilerReady>, b: B) -> Compiler<B, CompilerReady> {
+    c.with_backend(b)
+}
